@@ -618,16 +618,28 @@ pub fn wrapper_oracle(c: &WrapCase, probe: &mut Probe) -> Result<(), Fail> {
     let wrapped = Select::new(&sel).apply(&pop, &mut r2).map(std::ptr::from_ref).map_err(|e| e.to_string());
     let sel_ref: &Sel<Score<i64>> = &sel;
     let by_ref = (&sel_ref).select(&pop, &mut r3).map(std::ptr::from_ref).map_err(|e| e.to_string());
+    let (f1, f2, f3) = (r1.fingerprint(), r2.fingerprint(), r3.fingerprint());
     ensure!(
-        direct == wrapped && r1.fingerprint() == r2.fingerprint(),
+        direct == wrapped && f1 == f2,
         "wrapper/Select",
         "Select::new(s).apply differs from s.select: {direct:?} vs {wrapped:?} (or consumed randomness differently)"
     );
     ensure!(
-        direct == by_ref && base.clone().fingerprint().1 == base.clone().fingerprint().1,
+        direct == by_ref && f1 == f3,
         "wrapper/selector-by-reference",
-        "(&s).select differs from s.select: {direct:?} vs {by_ref:?}"
+        "(&s).select differs from s.select: {direct:?} vs {by_ref:?} (or consumed randomness differently)"
     );
+    if let Ok(owned) = build::<Score<i64>>(&c.sel) {
+        let mut r4 = base.clone();
+        let mut r5 = base.clone();
+        let expected = sel.select(&pop, &mut r5).map(std::ptr::from_ref).map_err(|e| e.to_string());
+        let by_value = Select::new(owned).apply(&pop, &mut r4).map(std::ptr::from_ref).map_err(|e| e.to_string());
+        ensure!(
+            expected == by_value && r4.fingerprint() == r5.fingerprint(),
+            "wrapper/Select",
+            "Select::new(s) (by value) differs from s.select: {expected:?} vs {by_value:?}"
+        );
+    }
     // (b) Mutate / Recombine / GenomeExtractor / Identity / Constant / GenomeScorer on u64-vector genomes
     let gpop: GPop = (0..c.n.max(1)).map(|i| EcIndividual::new(vec![i as u64, 1000 + i as u64], i as u64)).collect();
     let g = vec![1u64, 2, 3];
@@ -637,6 +649,15 @@ pub fn wrapper_oracle(c: &WrapCase, probe: &mut Probe) -> Result<(), Fail> {
         let x = pm.mutate(g.clone(), &mut a).map_err(|e| e.0);
         let y = if by_ref { Mutate::new(&pm).apply(g.clone(), &mut b).map_err(|e| e.0) } else { Mutate::new(PMut { fail: c.fail_mut }).apply(g.clone(), &mut b).map_err(|e| e.0) };
         ensure!(x == y && a.fingerprint() == b.fingerprint(), "wrapper/Mutate", "Mutate (by_ref={by_ref}) differs from the mutator: {x:?} vs {y:?}");
+        {
+            // `impl Mutator for &mut M`
+            let mut pm2 = PMut { fail: c.fail_mut };
+            let (mut a, mut b) = (base.clone(), base.clone());
+            let x = pm.mutate(g.clone(), &mut a).map_err(|e| e.0);
+            let mref: &mut PMut = &mut pm2;
+            let y = Mutator::mutate(&mref, g.clone(), &mut b).map_err(|e| e.0);
+            ensure!(x == y && a.fingerprint() == b.fingerprint(), "wrapper/mutator-by-mut-reference", "(&mut m).mutate differs from m.mutate: {x:?} vs {y:?}");
+        }
         let (mut a, mut b) = (base.clone(), base.clone());
         let x = pr.recombine([g.clone(), vec![9]], &mut a).map_err(|e| e.0);
         let y = if by_ref { Recombine::new(&pr).apply([g.clone(), vec![9]], &mut b).map_err(|e| e.0) } else { Recombine::new(PRec { fail: c.fail_rec }).apply([g.clone(), vec![9]], &mut b).map_err(|e| e.0) };
